@@ -93,6 +93,8 @@ Mutants of /repo tried (scratch worktree, VERIF_REPO; quick tier, seed 0) — al
   the original objects): missed while the clone op only used clone(); the op now carries deep_copy and
   allow_outer_scope_values (the latter through Graph.clone + re-assembly, main graph and its bodies only, since
   Function.clone has no such parameter), nodes/values carry meta entries so deep_copy copies something.
+  Since /repo 82dd72c the allow path passes through only values that no node of the cloned graphs defines; a
+  use before definition raises (at once or in the cloner's post-check) — Model.clone_inputs `own`.
   Seeded C19-m3 (deserializer resolves sharding names against the innermost scope only): missed by the first
   version (no subgraph bodies in the world); caught since the model/generator have nested scopes — correspondence
   + oracle with a concrete replay (body node sharding a captured value, then a round trip).
